@@ -146,6 +146,15 @@ fn grid(n: int) -> [[int]] {
 }
 let total_f = 0.5;
 fn accumulate(f: float) -> float { total_f = total_f + f; total_f }
+let va: [int] = [];
+let vb: [int] = [];
+fn alias_views() { vb = va; }
+fn push_view(x: int) -> int { va.push(x); va.len() }
+fn view_len() -> int { vb.len() }
+let span = 8..12;
+fn set_span(incl: bool) { if incl { span = 8..=12; } else { span = 8..12; } }
+fn count_span() -> int { let c = 0; for _x in span { c = c + 1; } c }
+fn sum_list(l: [int]) -> int { let t = 0; for x in l { t = t + x; } t }
 let last: [int] = [0];
 fn remember(x: int) { last = [x]; }
 fn recall() -> int { last[0] }
@@ -162,6 +171,9 @@ type c16Model struct {
 	lastS   [2]string
 	counter int64
 	totalF  float64
+	aliased  bool // alias_views() has run: vb and va are one list
+	viewA    int  // elements pushed through va
+	spanIncl bool
 	log     []int64
 	failed  bool
 	lines   map[string]int
@@ -275,7 +287,37 @@ func c16GenOp(s *simrt.Sim, m *c16Model, pfault int, force int) c16Op {
 			// handled by the caller: print fault / cancel fault on an ordinary op
 		}
 	}
-	switch pick(36, "op") {
+	switch pick(42, "op") {
+	case 36:
+		return c16Op{fn: "alias_views", desc: "alias_views()", check: wantNull, apply: func(m *c16Model) { m.aliased = true }}
+	case 37:
+		x := intArgs[pick(len(intArgs), "arg")]
+		n := int64(m.viewA + 1)
+		return c16Op{fn: "push_view", args: []value.Value{vInt(x)}, desc: fmt.Sprintf("push_view(%d)", x), check: wantInt(n), apply: func(m *c16Model) { m.viewA++ }}
+	case 38:
+		want := int64(0)
+		if m.aliased {
+			want = int64(m.viewA) // `vb = va` made both names denote one list
+		}
+		return c16Op{fn: "view_len", desc: "view_len()", check: wantInt(want)}
+	case 39:
+		incl := pick(2, "arg") == 1
+		return c16Op{fn: "set_span", args: []value.Value{vBool(incl)}, desc: fmt.Sprintf("set_span(%v)", incl), check: wantNull, apply: func(m *c16Model) { m.spanIncl = incl }}
+	case 40:
+		want := int64(4)
+		if m.spanIncl {
+			want = 5
+		}
+		return c16Op{fn: "count_span", desc: "count_span()", check: wantInt(want)}
+	case 41:
+		n := []int{0, 3, 64, 65, 200}[pick(5, "arg")]
+		vals := make([]*value.Value, n)
+		sum := int64(0)
+		for i := range vals {
+			vals[i] = value.NewValueInt(int64(i + 1))
+			sum += int64(i + 1)
+		}
+		return c16Op{pure: true, fn: "sum_list", args: []value.Value{*value.NewValueList(vals)}, desc: fmt.Sprintf("sum_list([1..%d])", n), check: wantInt(sum)}
 	case 33:
 		x := []int64{0, 1, 7, -3, 100}[pick(5, "arg")]
 		return c16Op{pure: true, reusable: true, fn: "half", args: []value.Value{vInt(x)}, desc: fmt.Sprintf("half(%d)", x), check: wantFloat(float64(x) / 2.0)}
@@ -389,7 +431,7 @@ func c16GenOp(s *simrt.Sim, m *c16Model, pfault int, force int) c16Op {
 		want := append([]int64(nil), m.log...)
 		return c16Op{fn: "get_hist", desc: "get_hist()", check: wantIntList(want)}
 	case 17:
-		n := []int64{0, 1, 3, 7}[pick(4, "arg")]
+		n := []int64{0, 1, 3, 7, 64, 65, 150}[pick(7, "arg")]
 		var want []int64
 		for i := int64(0); i < n; i++ {
 			want = append(want, i*2)
@@ -748,7 +790,7 @@ func runC16(t *testing.T, spec RunSpec) *Verdict {
 				reuse = true
 				s.Probe("invocation-object-reused")
 			}
-			mode := s.Choose(3, "mode") // 0 SpawnSync, 1 SpawnAsync+Wait, 2 SpawnAsync+Wait with onFinish
+			mode := s.Choose(4, "mode") // 0 SpawnSync, 1 SpawnAsync+Wait, 2/3 SpawnAsync+Wait with a buffered/unbuffered onFinish read after the wait
 			// in-history faults on an ordinary operation
 			faultDesc := ""
 			cancelArmed := false
@@ -822,8 +864,20 @@ func runC16(t *testing.T, spec RunSpec) *Verdict {
 				if mode == 2 {
 					onFinish = make(chan struct{}, 1)
 				}
+				if mode == 3 {
+					onFinish = make(chan struct{})
+				}
 				core = env.vm.SpawnAsync(inv, nil, nil, onFinish)
 				num, i := env.vm.Wait()
+				if onFinish != nil {
+					// the notification arrives exactly once, and reading it only now must not have held anything up
+					s.SetDeadline("onfinish-notification-arrives", 2*time.Second)
+					simrt.Blocking()
+					<-onFinish
+					simrt.Woke()
+					s.ClearDeadline("onfinish-notification-arrives")
+					s.Probe("onfinish-read-after-wait")
+				}
 				result = env.vm.HandleTermination(core, inv, i, num)
 			}
 			s.ClearDeadline("call-after-failure-returns")
